@@ -2,6 +2,7 @@
 From Coq Require Import ZArith List Bool Znumtheory Sorted.
 From RNT.Model Require Import Base Elementary.
 From RNT.Refine Require Import ElemProofs KroneckerProofs.
+From RNT.Refine Require RecipBridge RecipJacobi RecipKronecker.
 Open Scope Z_scope.
 
 (** [P] the fuel the model gives to the recursive Euclid always suffices. *)
@@ -93,4 +94,81 @@ Theorem kron_ref_factorisation_bounded : forall b, 1 <= b <= 128 ->
 Proof. exact KroneckerProofs.kron_ref_factorisation_bounded. Qed.
 Example kronecker_bounded_ex : kronecker Checked (-1) 3 = Done (-1) /\ kron_ref (-1) 3 = -1 /\ kron_ref 2 (-15) = 1 /\ kron_ref (-5) (-12) = -1
   /\ primes128 = map Z.of_nat (primes 128).
+Proof. vm_compute. repeat split; reflexivity. Qed.
+
+(** *** The routine computes the Kronecker symbol (second wave; quadratic reciprocity is proved in
+    Refine/RecipLegendre.v: Euler, Gauss's lemma, Eisenstein; lifted to Z in RecipBridge.v, to the Jacobi symbol in
+    RecipJacobi.v and to the algorithm in RecipKronecker.v).
+
+    [RecipKronecker.K a b] is the symbol from the definition: K a 0 = [|a| = 1]; for b <> 0,
+    K a b = (a/sign b) * prod over the prime factors p of |b| with multiplicity (smallest first) of the local symbol
+    (a/p) = [KroneckerProofs.local_symbol a p] (p = 2: 0 / 1 / -1 for a even / = +-1 / = +-3 mod 8; odd p: Euler's
+    criterion (a mod p)^((p-1)/2) mod p in {0, 1, other} -> {0, 1, -1}), with (a/-1) = -1 for a < 0, else 1. *)
+
+(** [P] the model of kronecker_symbol_i64 equals the Kronecker symbol for ALL a, b in the i64 range, both profiles. *)
+Theorem kronecker_spec : forall m a b, - two63 <= a < two63 -> - two63 <= b < two63 ->
+  kronecker m a b = Done (RecipKronecker.K a b).
+Proof. exact RecipKronecker.kronecker_spec. Qed.
+Example kronecker_spec_ex :
+  RecipKronecker.K (-1) 3 = -1 /\ RecipKronecker.K 2 15 = 1 /\ RecipKronecker.K 2 (-15) = 1 /\ RecipKronecker.K (-5) (-12) = -1 /\
+  RecipKronecker.K 7 0 = 0 /\ RecipKronecker.K 6 4 = 0 /\ RecipKronecker.K 1001 907 = 1 /\ RecipKronecker.pfactors 360 = [2; 2; 2; 3; 3; 5].
+Proof. vm_compute. repeat split; reflexivity. Qed.
+(** K(1001, 9907) = -1 (9907 is prime), obtained through the theorem from a run of the model. *)
+Example kronecker_spec_ex2 : RecipKronecker.K 1001 9907 = -1 /\ RecipKronecker.K (two63 - 1) (- two63 + 1) = 0.
+Proof.
+  assert (E1 : kronecker Checked 1001 9907 = Done (-1)) by (vm_compute; reflexivity).
+  assert (E2 : kronecker Checked (two63 - 1) (- two63 + 1) = Done 0) by (vm_compute; reflexivity).
+  rewrite (kronecker_spec Checked 1001 9907) in E1 by (vm_compute; split; congruence).
+  rewrite (kronecker_spec Checked (two63 - 1) (- two63 + 1)) in E2 by (vm_compute; split; congruence).
+  split; [exact (RecipKronecker.done_inj _ _ _ E1)|exact (RecipKronecker.done_inj _ _ _ E2)].
+Qed.
+
+(** [P] K is "the" multiplicative extension: for ANY sign u and ANY list of primes ps (any order, repetitions allowed)
+    K a (u * p1 ... pk) = (a/u) * (a/p1) ... (a/pk); every b <> 0 has such a factorisation. With K a 0 above these
+    equations determine K, so the smallest-factor-first recursion in the definition is no restriction. *)
+Theorem K_factorisation : forall a u ps, u = 1 \/ u = -1 -> Forall prime ps ->
+  RecipKronecker.K a (u * RecipJacobi.prodl ps) =
+  (if u <? 0 then kron_at_m1 a else 1) * fold_right (fun p acc => local_symbol a p * acc) 1 ps.
+Proof. exact RecipKronecker.K_factorisation. Qed.
+Theorem K_b0 : forall a, RecipKronecker.K a 0 = if Z.abs a =? 1 then 1 else 0.
+Proof. exact RecipKronecker.K_b0. Qed.
+Theorem factorisation_exists : forall b, b <> 0 ->
+  exists u ps, (u = 1 \/ u = -1) /\ Forall prime ps /\ b = u * RecipJacobi.prodl ps.
+Proof. exact RecipKronecker.factorisation_exists. Qed.
+Example K_factorisation_ex : RecipJacobi.prodl [5; 3; 2; 3] = 90 /\ RecipKronecker.K 7 (-90) = -1 /\ local_symbol 7 5 = -1.
+Proof. vm_compute. repeat split; reflexivity. Qed.
+
+(** [P] the reference symbol of the bounded theorem is K on its box. *)
+Theorem kron_ref_K : forall a b, -128 <= a <= 128 -> -128 <= b <= 128 -> kron_ref a b = RecipKronecker.K a b.
+Proof. exact RecipKronecker.kron_ref_K. Qed.
+
+(** [P] the laws used (all proved, none assumed). p, q odd primes ([Znumtheory.prime], > 2). *)
+(** multiplicativity of the Legendre symbol in the top argument (from Euler's criterion) *)
+Theorem legendre_mul : forall p, prime p -> 2 < p -> forall a b, legendre (a * b) p = legendre a p * legendre b p.
+Proof. exact RecipBridge.legendre_mul. Qed.
+Theorem legendre_eq0 : forall p, prime p -> 2 < p -> forall a, legendre a p = 0 <-> (p | a).
+Proof. exact RecipBridge.legendre_eq0. Qed.
+(** Euler's criterion, both halves: the symbol defined by the Euler power is the quadratic-residue symbol *)
+Theorem legendre_qr : forall p a, prime p -> 2 < p ->
+  legendre a p = 1 <-> (~ (p | a) /\ exists x, (x * x) mod p = a mod p).
+Proof. exact RecipBridge.legendre_qr. Qed.
+Example legendre_qr_ex : legendre 2 7 = 1 /\ (3 * 3) mod 7 = 2 mod 7 /\ legendre 3 7 = -1 /\ legendre 14 7 = 0.
+Proof. vm_compute. repeat split; reflexivity. Qed.
+(** first and second supplementary laws (the second through Gauss's lemma) *)
+Theorem legendre_m1 : forall p, prime p -> 2 < p -> legendre (-1) p = if p mod 4 =? 1 then 1 else -1.
+Proof. exact RecipBridge.legendre_m1. Qed.
+Theorem legendre_2 : forall p, prime p -> 2 < p -> legendre 2 p = if (p mod 8 =? 1) || (p mod 8 =? 7) then 1 else -1.
+Proof. exact RecipBridge.legendre_2. Qed.
+(** the law of quadratic reciprocity (Gauss's lemma + Eisenstein's lattice-point count) *)
+Theorem legendre_reciprocity : forall p q, prime p -> prime q -> 2 < p -> 2 < q -> p <> q ->
+  legendre q p * legendre p q = if (p mod 4 =? 3) && (q mod 4 =? 3) then -1 else 1.
+Proof. exact RecipBridge.legendre_reciprocity. Qed.
+Example legendre_reciprocity_ex : legendre 3 7 = -1 /\ legendre 7 3 = 1 /\ legendre 5 13 = -1 /\ legendre 13 5 = -1 /\ legendre 2 7 = 1 /\ legendre (-1) 7 = -1.
+Proof. vm_compute. repeat split; reflexivity. Qed.
+(** Jacobi symbol for odd n >= 1 (K with a positive odd lower argument): reciprocity, coprime or not *)
+Theorem jacobi_reciprocity : forall m n, 1 <= m -> 1 <= n -> m mod 2 = 1 -> n mod 2 = 1 ->
+  RecipKronecker.Kpos m n = RecipJacobi.eps n m * RecipKronecker.Kpos n m.
+Proof. exact RecipKronecker.J_recip. Qed.
+Example jacobi_reciprocity_ex : RecipKronecker.Kpos 15 77 = 1 /\ RecipKronecker.Kpos 77 15 = 1 /\ RecipJacobi.eps 77 15 = 1
+  /\ RecipKronecker.Kpos 7 15 = -1 /\ RecipKronecker.Kpos 15 7 = 1 /\ RecipJacobi.eps 15 7 = -1 /\ RecipKronecker.Kpos 15 21 = 0.
 Proof. vm_compute. repeat split; reflexivity. Qed.
